@@ -135,6 +135,12 @@ SITES = {
     'assert-run-as-matcher': ('assert', ["contents in.txt : run % SITE"]),
     'assert-stdout-from-program': ('assert', ["stdout -from $ SITE", "    is-empty"]),
     'assert-exists-run-matcher': ('assert', ["exists in.txt : run % SITE"]),
+    'assert-stdout-from-program-transformed-by-run': ('assert', ["stdout -from % generator", "    -transformed-by run % SITE",
+                                                                 "    is-empty"]),
+    'assert-stderr-from-program-transformed-by-run': ('assert', ["stderr -from $ generator", "    -transformed-by run % SITE",
+                                                                 "    ! is-empty"]),
+    'setup-file-from-program-transformed-by-run': ('setup', ["file out2.txt = -stdout-from % generator",
+                                                             "    -transformed-by run % SITE"]),
 }
 
 # where the timeout instruction(s) stand relative to the site
